@@ -727,8 +727,24 @@ def check_C02(ctx, unit):
         # evaluated, and at the function's exit `head == X` must equal the expected outcome.  No assumption about how
         # the test is spelled (one `||`, nested ifs, else-if, a helper).
         n_sites = 0
-        for name in ("allocate", "free_in_slab_"):
-            for f in bn.get(name, []):
+        from .inline import inline_variant as _iv
+
+        def _has_insert(f_):
+            return any(n.is_call() and n.callee and n.callee["n"] == "insert" and n.kind == "CXXMemberCallExpr" and n.args
+                       and path(n.child("obj")) and path(n.child("obj"))[-1] == "partial_tree" for n in f_.events())
+        # where the free path re-links a slab: free_in_slab_ itself, or -- when the re-linking was moved out of it -- each
+        # release entry point read together with free_in_slab_ (the helper folded in)
+        relink_in_helper = any(_has_insert(f_) for f_ in bn.get("free_in_slab_", []))
+        release_fns = []
+        if relink_in_helper:
+            release_fns = [("free_in_slab_", f_) for f_ in bn.get("free_in_slab_", [])]
+        else:
+            for nm_ in ("free", "deallocate"):
+                for f0_ in bn.get(nm_, []):
+                    if any(n.is_call() and n.callee and n.callee["n"] == "free_in_slab_" for n in f0_.events()):
+                        release_fns.append((nm_, _iv(unit, f0_, lambda cal: cal.get("n") == "free_in_slab_")))
+        for name, f in [("allocate", f_) for f_ in bn.get("allocate", [])] + release_fns:
+            if True:
                 ins = [n for n in f.events() if n.is_call() and n.callee and n.callee["n"] == "insert" and n.args
                        and n.kind == "CXXMemberCallExpr" and path(n.child("obj")) and path(n.child("obj"))[-1] == "partial_tree"]
                 for k, ic in enumerate(sorted(ins, key=lambda n: _lockey(n.loc))):
@@ -787,12 +803,18 @@ def check_C02(ctx, unit):
         # free_in_slab_: the slab is re-inserted exactly when it was full *before* this block was pushed onto its list.
         # Exact: the function is walked for both entry values of `available` (null / non-null); locals snapshot what they
         # are initialised from, the push makes `available` non-null, every branch over those is evaluated.
-        for f in bn.get("free_in_slab_", []):
+        for rname, f in release_fns:
             ins = [n for n in f.events() if n.is_call() and n.callee and n.callee["n"] == "insert" and n.kind == "CXXMemberCallExpr"
                    and path(n.child("obj")) and path(n.child("obj"))[-1] == "partial_tree"]
             push = [n for n in f.events() if write_of(n) and write_of(n)[0] and write_of(n)[0][-1] == "available" and n.kind in ("BinaryOperator", "CallExpr")]
-            if not ins or not push:
+            if not push or (not ins and relink_in_helper):
                 raise AnalysisBroken("anchor vanished: free-list push / partial-tree insert in %s" % f.qn)
+            if not ins:
+                ctx.inst("E.reuse-before-map", "%s::%s%s" % (POOL, rname, tag), False, f.loc,
+                         "%s() pushes the block onto its slab's free list (through free_in_slab_) but no path of it re-inserts "
+                         "a slab that was full into the partial tree, although the sibling release function does: the slab is "
+                         "never allocated from again" % rname, f)
+                continue
             problems = []
 
             def mkval2(st):
@@ -809,7 +831,7 @@ def check_C02(ctx, unit):
                 return val
 
             def transfer2(n, st):
-                entry, cur, snaps, inserted = st
+                entry, cur, snaps, inserted, pushed = st
                 if n.kind == "DeclStmt":
                     sn = dict(snaps)
                     for d in n.get("decls", []):
@@ -819,19 +841,29 @@ def check_C02(ctx, unit):
                                 sn[d["d"]] = int(v)
                             else:
                                 sn.pop(d["d"], None)
-                    return [(entry, cur, tuple(sorted(sn.items())), inserted)]
+                    return [(entry, cur, tuple(sorted(sn.items())), inserted, pushed)]
                 if any(n.id == p_.id for p_ in push):
-                    return [(entry, 1, snaps, inserted)]
+                    return [(entry, 1, snaps, inserted, True)]
                 if any(n.id == i_.id for i_ in ins):
-                    return [(entry, cur, snaps, True)]
+                    return [(entry, cur, snaps, True, pushed)]
                 return [st]
 
-            def refine2(cond, truth, st):
+            def refine2(cond, truth, st, f=f):
+                c_, t_ = cond.strip(), truth
+                while c_.kind == "UnaryOperator" and c_.op == "!":
+                    c_, t_ = c_.children[0].strip(), not t_
+                if c_.get("inlined"):
+                    # `if(free_in_slab_(slb, p))` with the helper folded in: the test is on the helper's result
+                    from .ir import value_leaves
+                    ls = value_leaves(f, c_)
+                    if len(ls) == 1:
+                        cond, truth = ls[0], t_
                 v = flow.sem_eval(cond, mkval2(st))
                 if v is None or bool(v) == truth:
                     return [st]
                 return []
-            _, ex = flow.run(f, [(0, 0, (), False), (1, 1, (), False)], transfer2, refine2, limit=100000)
+            _, ex = flow.run(f, [(0, 0, (), False, False), (1, 1, (), False, False)], transfer2, refine2, limit=100000)
+            ex = {st for st in ex if st[4]}      # only the paths that push a block (an entry point also releases large frames)
             for st in sorted(ex):
                 if st[0] == 0 and not st[3]:
                     problems.append("a slab that was full before the push is not re-inserted into the partial tree "
@@ -840,7 +872,7 @@ def check_C02(ctx, unit):
                     problems.append("a slab that already had free objects is inserted into the partial tree a second time")
             if not ex:
                 problems.append("no normal exit")
-            ctx.inst("E.reuse-before-map", "%s::free_in_slab_%s" % (POOL, tag), not problems, f.loc,
+            ctx.inst("E.reuse-before-map", "%s::%s%s" % (POOL, rname, tag), not problems, f.loc,
                      "; ".join(sorted(set(problems))) if problems else "re-inserted iff `available` was null before the push (both entry values, path-sensitive)", f)
 
 
